@@ -1,6 +1,7 @@
 """C20 — schema validation reports every type-system violation and never crashes."""
 from __future__ import annotations
 
+import copy
 import json
 import random
 import re
@@ -40,7 +41,16 @@ LEVEL_NOTE = (
     "on custom scalars whose parse_value/serialize raise KeyError, ValueError, ZeroDivisionError, AttributeError, ...; "
     "where a value has an exactly equivalent const literal (built-in scalars, enums, input objects, lists, scalars "
     "with default callbacks) the case additionally goes through the model and the spec verdict via that literal. "
-    "Also not modelled: wrapper types in interfaces/union-member/root positions, NonNull(NonNull(...))."
+    "RawSchema references in root / union-member / implements positions are NAMES, so a wrapping type there "
+    "(GraphQLSchema(query=GraphQLList(Obj)), a List among a union's types or a type's interfaces — programmatic only) "
+    "is not expressible in the model: those schemas, like SDL whose lazily built enum values fail "
+    "(enum E { X @deprecated(reason: 1) }), chains of 200/600/1200 input objects, deep copies taken before validation "
+    "and callers emptying the error lists they were handed, are tied by the implementation-side oracles only "
+    "(never raises; the same list again; graphql_sync returns exactly the schema errors; a rule-violating construction "
+    "is not accepted; the deep copy validates like the original). A OneOf input object without a finite value is valid "
+    "by the transcribed specification revision (and by validate.py); the separate Lean function Spec.uninhabited "
+    "(newer specification text, not part of Spec.TypeSystemValid) is the oracle that recognises it. "
+    "NonNull(NonNull(...)) is outside RawSchema."
 )
 TECHNIQUE = "Lean 4 proof about an executable model + differential correspondence + spec oracle on the implementation"
 TRUSTED = [
@@ -58,6 +68,10 @@ ASSUMPTIONS = [
     "equivalent literal when one exists (checks/c20.py _value_lit) and are otherwise covered by the implementation-side "
     "oracles only; the deprecated default_value= only matters as 'has a default'",
     "Float literals stay within the finite double range",
+    "the interpreter's recursion limit is not modelled: the Lean validators are unbounded (budget |types|+1 / "
+    "|input fields|+1, proved sufficient), the implementation's recursive ones raise RecursionError on input-object "
+    "chains of ~500 types (known finding recursionerror:input-object-chain-depth, fingerprint computed from the "
+    "schema's chain depth at run time)",
     "custom scalars use the library's default literal coercion (accept every const literal)",
     "an object literal with a repeated key denotes the map in which the last entry wins",
     "NonNull(NonNull(T)) (not expressible in SDL, not checked by validate.py) is outside RawSchema",
@@ -128,7 +142,8 @@ def build(case):
     from graphql import GraphQLDirective, GraphQLSchema, build_schema
     from graphql.type import GraphQLList, GraphQLNonNull
 
-    schema = build_schema(case["sdl"], assume_valid=False, assume_valid_sdl=True)
+    # "presdl": keep the SDL pre-validation (the default of build_schema) instead of skipping it
+    schema = build_schema(case["sdl"], assume_valid=False, assume_valid_sdl=not case.get("presdl"))
     tweaks = case.get("tweaks") or []
     if not tweaks:
         return schema
@@ -175,6 +190,27 @@ def build(case):
             continue
         if op == "raising_scalar":
             extra_types[tw[1]] = _raising_scalar(tw[1], tw[2], tw[3])
+            continue
+        if op in ("wrap_root", "wrap_union_member", "wrap_interface"):
+            # a wrapping type where a named type is expected (only programmatic construction can do it)
+            def wrapped(ty, wraps):
+                for w in wraps:
+                    ty = GraphQLList(ty) if w == "l" else GraphQLNonNull(ty)
+                return ty
+
+            if op == "wrap_root":
+                _, opname, target, wraps = tw
+                if target in tm:
+                    kwargs[opname] = wrapped(tm[target], wraps)
+            else:
+                _, holder, target, wraps = tw
+                h = tm.get(holder)
+                if h is None or target not in tm:
+                    continue
+                if op == "wrap_union_member" and hasattr(h, "types"):
+                    h.types = [*h.types, wrapped(tm[target], wraps)]
+                elif op == "wrap_interface" and hasattr(h, "interfaces"):
+                    h.interfaces = [*h.interfaces, wrapped(tm[target], wraps)]
             continue
         if op == "nolocs":  # a directive without locations
             directives.append(GraphQLDirective(tw[1], []))
@@ -423,7 +459,16 @@ def _field(name, f):
 
 
 def serialize(schema) -> str:
-    """the driver's line for a constructed schema (see lean/Driver/C20.lean)"""
+    """the driver's line for a constructed schema (see lean/Driver/C20.lean), or Unsupported"""
+    try:
+        return _serialize(schema)
+    except Unsupported:
+        raise
+    except Exception as e:  # noqa: BLE001 - wrapping types in named positions, lazily failing enum values
+        raise Unsupported(type(e).__name__) from e
+
+
+def _serialize(schema) -> str:
     from graphql.type import (
         GraphQLBoolean,
         GraphQLFloat,
@@ -467,6 +512,40 @@ def serialize(schema) -> str:
     return " ".join(" ".join(out).split())
 
 
+def _input_chain_depth(schema):
+    """length of the longest chain of input objects linked by input-object-typed fields (iterative)"""
+    from graphql.type import get_named_type, is_input_object_type
+
+    try:
+        inputs = {n: t for n, t in schema.type_map.items() if is_input_object_type(t)}
+        succ = {n: [get_named_type(f.type).name for f in t.fields.values() if is_input_object_type(get_named_type(f.type))] for n, t in inputs.items()}
+    except Exception:  # noqa: BLE001
+        return 0
+    depth, state, best = {}, {}, 0
+    for root in succ:
+        stack = [(root, iter(succ[root]))]
+        state[root] = state.get(root, 1)
+        while stack:
+            node, it = stack[-1]
+            nxt = next(it, None)
+            if nxt is None:
+                stack.pop()
+                depth[node] = 1 + max((depth.get(m, 0) for m in succ[node]), default=0)
+                state[node] = 2
+                best = max(best, depth[node])
+            elif nxt in succ and state.get(nxt) is None:
+                state[nxt] = 1
+                stack.append((nxt, iter(succ[nxt])))
+    return best
+
+
+def _raise_fp(prefix, e, schema):
+    """run-computed fingerprint of an exception escaping validate_schema / graphql_sync"""
+    if isinstance(e, RecursionError) and _input_chain_depth(schema) >= 150:
+        return "recursionerror:input-object-chain-depth"
+    return f"{prefix}-raises-{type(e).__name__}"
+
+
 def observe(schema):
     """(outcome, [classified errors], messages, oracle failures [(fingerprint, what, observed, expected)])"""
     from graphql import graphql_sync
@@ -476,11 +555,11 @@ def observe(schema):
     try:
         errs = validate_schema(schema)
     except Exception as e:  # noqa: BLE001
-        fails.append((f"validate_schema-raises-{type(e).__name__}", "validate_schema raises instead of returning errors", f"{type(e).__name__}: {e}"[:300], "a list of errors"))
+        fails.append((_raise_fp("validate_schema", e, schema), "validate_schema raises instead of returning errors", f"{type(e).__name__}: {e}"[:300], "a list of errors"))
         try:
             graphql_sync(schema, "{ __typename }")
         except Exception as e2:  # noqa: BLE001
-            fails.append((f"graphql_sync-raises-{type(e2).__name__}", "graphql_sync raises on a schema whose validation raises", f"{type(e2).__name__}"[:300], "a response"))
+            fails.append((_raise_fp("graphql_sync", e2, schema), "graphql_sync raises on a schema whose validation raises", f"{type(e2).__name__}"[:300], "a response"))
         return f"crash {type(e).__name__}", [], [], fails
     msgs = [e.message for e in errs]
     try:
@@ -495,9 +574,40 @@ def observe(schema):
             got = [e.message for e in (res.errors or [])]
             if res.data is not None or got != msgs:
                 fails.append(("graphql_sync-invalid-schema", "request against an invalid schema does not return exactly the schema errors", {"data": repr(res.data), "errors": got[:6]}, {"data": None, "errors": msgs[:6]}))
+            # a caller emptying the lists it was handed must not change the schema's validation state
+            if isinstance(res.errors, list):
+                res.errors.clear()
+            if isinstance(errs, list):
+                errs.clear()
+            after = [e.message for e in validate_schema(schema)]
+            res2 = graphql_sync(schema, "{ __typename }")
+            got2 = [e.message for e in (res2.errors or [])]
+            if after != msgs or res2.data is not None or got2 != msgs:
+                fails.append(("validation-cache-mutated-through-result", "emptying the error list of a response (or of validate_schema's result) changes what the next validation / request returns", {"validate_schema": after[:6], "data": repr(res2.data), "errors": got2[:6]}, {"data": None, "errors": msgs[:6]}))
         except Exception as e:  # noqa: BLE001
-            fails.append((f"graphql_sync-raises-{type(e).__name__}", "request against an invalid schema raises", f"{type(e).__name__}: {e}"[:300], {"data": None, "errors": msgs[:6]}))
+            fails.append((_raise_fp("graphql_sync", e, schema), "request against an invalid schema raises", f"{type(e).__name__}: {e}"[:300], {"data": None, "errors": msgs[:6]}))
     return "ok", [classify(m) for m in msgs], msgs, fails
+
+
+def observe_copy(schema_copy, outcome, msgs):
+    """copy.deepcopy(schema) taken before validation must validate like the schema itself"""
+    from graphql import graphql_sync
+    from graphql.type import validate_schema
+
+    if outcome != "ok":
+        return []
+    try:
+        cm = [e.message for e in validate_schema(schema_copy)]
+        if cm != msgs:
+            return [("deepcopy-loses-validation-state", "copy.deepcopy(schema) taken before validation validates differently from the schema", cm[:6], msgs[:6])]
+        if msgs:
+            r = graphql_sync(schema_copy, "{ __typename }")
+            got = [e.message for e in (r.errors or [])]
+            if r.data is not None or got != msgs:
+                return [("deepcopy-loses-validation-state", "a request against the deep copy of an invalid schema does not return the schema errors", {"data": repr(r.data), "errors": got[:6]}, msgs[:6])]
+    except Exception as e:  # noqa: BLE001
+        return [(f"deepcopy-validate-raises-{type(e).__name__}", "validating the deep copy raises", f"{type(e).__name__}: {e}"[:200], msgs[:6])]
+    return []
 
 
 # ----------------------------------------------------------------------------- one chunk of cases
@@ -519,10 +629,24 @@ def _work(args):
             st["not_constructible"] = st.get("not_constructible", 0) + 1
             st[f"not_constructible.{type(e).__name__}"] = st.get(f"not_constructible.{type(e).__name__}", 0) + 1
             continue
+        schema_copy = None
+        if case.get("deepcopy"):
+            try:
+                schema_copy = copy.deepcopy(schema)
+                st["deepcopied"] = st.get("deepcopied", 0) + 1
+            except Exception:  # noqa: BLE001 - user callbacks / very deep trees: not the property's business
+                st["deepcopy_failed"] = st.get("deepcopy_failed", 0) + 1
         outcome, kinds, msgs, fails = observe(schema)
+        if schema_copy is not None:
+            fails += observe_copy(schema_copy, outcome, msgs)
+        if case.get("expect_invalid") and outcome == "ok" and not msgs:
+            fails.append(("accepts-invalid-schema:" + case["expect_invalid"], "a schema built by a rule-violating construction is accepted", [], "at least one error"))
         rep.evaluations += 1
         for fp, what, observed, expected in fails:
             rep.failures.append(Failure(fp, what, case, observed, expected, "C20 oracle (1)/(3)/cache"))
+        if case.get("nodriver"):
+            st["not_modelled"] = st.get("not_modelled", 0) + 1
+            continue
         try:
             line = serialize(schema)
         except Unsupported:
@@ -536,7 +660,7 @@ def _work(args):
             continue
         if out == "bad-op":
             raise fw.InfraError("driver could not parse: " + line[:300])
-        model, pinned, spec, oof, errs = out.split(";", 4)
+        model, pinned, spec, oof, unin, errs = out.split(";", 5)
         merrs = errs.split() if errs else []
         if oof == "1":
             rep.disagreements.append(Disagreement("cycle-validator-budget", case, "terminated", "model ran out of recursion budget"))
@@ -564,6 +688,18 @@ def _work(args):
                         {"errors": msgs[:8]},
                         {"spec_valid": spec == "1", "model_errors": merrs[:8]},
                         "C20 oracle (2) validate_iff_spec",
+                    )
+                )
+            elif impl_valid and unin:
+                # valid by the transcribed rules, yet an input object has no finite value (newer spec text)
+                rep.failures.append(
+                    Failure(
+                        "oneof-cycle-uninhabited-not-reported",
+                        "validate_schema accepts a schema in which an input object type has no finite value (OneOf cycle)",
+                        case,
+                        {"errors": []},
+                        {"uninhabited": unin.split(",")},
+                        "Spec.uninhabited (newer specification text, not part of Spec.TypeSystemValid)",
                     )
                 )
         # correspondence: crash / no crash, and the set of (kind, subject)
@@ -642,6 +778,65 @@ VALUE_CORPUS = [
 ]
 
 
+_W4 = "type Obj { x: Int } union U = Obj interface I { x: U } type Query implements I { x: Obj }"
+PROBE_CORPUS = [
+    # w1: an ill-typed directive argument that only the lazily built enum values evaluate
+    {"origin": "corpus:enum-value-deprecated-reason-int", "sdl": "type Query { f: E } enum E { X @deprecated(reason: 1) }"},
+    {"origin": "corpus:enum-value-deprecated-reason-int-presdl", "sdl": "type Query { f: E } enum E { X @deprecated(reason: 1) }", "presdl": True},
+    {"origin": "corpus:enum-value-deprecated-reason-null", "sdl": "type Query { f: E } enum E { X @deprecated(reason: null) Y }", "presdl": True},
+    {"origin": "corpus:enum-value-deprecated-reason-list", "sdl": "type Query { f: E } enum E { X Y @deprecated(reason: [1]) }"},
+    {"origin": "corpus:arg-deprecated-reason-int", "sdl": "type Query { f(a: Int @deprecated(reason: 1)): Int }", "presdl": True},
+    {"origin": "corpus:input-field-deprecated-reason-int", "sdl": "input I { a: Int @deprecated(reason: 1) } type Query { f(i: I): Int }"},
+    {"origin": "corpus:field-deprecated-reason-int", "sdl": "type Query { f: Int @deprecated(reason: 1) }"},
+    {"origin": "corpus:scalar-specifiedby-int", "sdl": "scalar S @specifiedBy(url: 1) type Query { f: S }", "presdl": True},
+    {"origin": "corpus:custom-directive-bad-arg", "sdl": "directive @d(a: Int!) on ENUM_VALUE | INPUT_FIELD_DEFINITION | ARGUMENT_DEFINITION enum E { X @d(a: \"s\") } input I { a: Int @d } type Query { f(x: I @d(a: null)): E }", "presdl": True},
+    # w3: deep copy before validation
+    {"origin": "corpus:deepcopy-invalid", "sdl": "type Query  input A { a: A! }", "deepcopy": True},
+    {"origin": "corpus:deepcopy-valid", "sdl": "type Query { a: Int }", "deepcopy": True},
+    # w4: a wrapping type where a named type is expected
+    {"origin": "corpus:wrap-root-query", "sdl": _W4, "tweaks": [["wrap_root", "query", "Obj", "l"]], "expect_invalid": "wrapper-root"},
+    {"origin": "corpus:wrap-root-mutation", "sdl": _W4, "tweaks": [["wrap_root", "mutation", "Obj", "!"]], "expect_invalid": "wrapper-root"},
+    {"origin": "corpus:wrap-union-member", "sdl": _W4, "tweaks": [["wrap_union_member", "U", "Obj", "l"]], "expect_invalid": "wrapper-union-member"},
+    {"origin": "corpus:wrap-interface-of-interface", "sdl": _W4, "tweaks": [["wrap_interface", "I", "Obj", "l"]], "expect_invalid": "wrapper-interface"},
+    {"origin": "corpus:wrap-interface-of-object", "sdl": _W4, "tweaks": [["wrap_interface", "Query", "I", "!"]], "expect_invalid": "wrapper-interface"},
+    # w5 is exercised on every invalid schema (observe); w6: OneOf objects without a finite value
+    {"origin": "corpus:oneof-self", "sdl": "type Query { f(a: A): Int } input A @oneOf { a: A }"},
+    {"origin": "corpus:oneof-via-nonnull", "sdl": "type Query { f(a: A): Int } input A @oneOf { b: B } input B { a: A! }"},
+    {"origin": "corpus:oneof-inhabited", "sdl": "type Query { f(a: A): Int } input A @oneOf { a: A, l: [A!], i: Int }"},
+]
+
+
+def probe_cases(ctx, rng, valid_descs):
+    """shapes an independent probe found: lazily failing enum values, long input chains, deep copies,
+    wrapping types in named positions, OneOf cycles (mutation of returned lists happens in observe)"""
+    cases = [dict(c) for c in PROBE_CORPUS]
+    # w2: long chains of input objects (valid schemas); only the short one goes through the driver
+    for n in (40, 200, 600, 1200):
+        for mode in ("nonnull", "default"):
+            cases.append({"origin": f"chain:{mode}:{n}", "sdl": G.chain_sdl(n, mode), "nodriver": n > 60, "presdl": n <= 200})
+    for i, d in enumerate(valid_descs):
+        sdl = G.to_sdl(d)
+        # an ill-typed @deprecated on the first enum value, with and without the SDL pre-validation
+        enums = [n for n, t in d["types"].items() if t["kind"] == "enum" and t["values"]]
+        if enums:
+            v = d["types"][enums[0]]["values"][0]
+            bad = rng.choice(["1", "null", "[1]", "{a: 1}", "true", "X"])
+            s2 = sdl.replace(f"enum {enums[0]} {{\n  {v}\n", f"enum {enums[0]} {{\n  {v} @deprecated(reason: {bad})\n", 1)
+            if s2 != sdl:
+                cases.append({"origin": f"lazyenum:{i}", "sdl": s2, "presdl": i % 2 == 0})
+        # wrapping types at every position where a named type is expected
+        objs = [n for n, t in d["types"].items() if t["kind"] == "object"]
+        unions = [n for n, t in d["types"].items() if t["kind"] == "union"]
+        holders = [n for n, t in d["types"].items() if t["kind"] in ("object", "interface")]
+        anyt = list(d["types"])
+        w = rng.choice(["l", "!", "l!", "!l"])
+        cases.append({"origin": f"wrap:root:{i}", "sdl": sdl, "tweaks": [["wrap_root", rng.choice(["query", "mutation", "subscription"]), rng.choice(objs), w]], "expect_invalid": "wrapper-root"})
+        if unions:
+            cases.append({"origin": f"wrap:union:{i}", "sdl": sdl, "tweaks": [["wrap_union_member", rng.choice(unions), rng.choice(anyt), w]], "expect_invalid": "wrapper-union-member"})
+        cases.append({"origin": f"wrap:iface:{i}", "sdl": sdl, "tweaks": [["wrap_interface", rng.choice(holders), rng.choice(anyt), w]], "expect_invalid": "wrapper-interface"})
+    return cases
+
+
 def gen_cases(ctx):
     quick = ctx.tier == "quick"
     rng = ctx.sub_rng("c20")
@@ -655,8 +850,10 @@ def gen_cases(ctx):
     if ctx.escalate:
         n_valid *= 2
     n_double = 0 if quick else 25
+    valid_descs = []
     for i in range(n_valid):
         d = G.gen_valid(rng)
+        valid_descs.append(d)
         cases.append({"origin": f"valid:{i}", "sdl": G.to_sdl(d)})
         for name, fn in G.MUTATIONS:
             d2 = G.mutate(d, name, fn, rng)
@@ -699,6 +896,11 @@ def gen_cases(ctx):
                     d3 = G.mutate(d2, *G.MUTATIONS[b], rng)
                     if d3 is not None:
                         cases.append({"origin": f"mut2:{G.MUTATIONS[a][0]}+{G.MUTATIONS[b][0]}:{i}", "sdl": G.to_sdl(d3)})
+    cases += probe_cases(ctx, ctx.sub_rng("c20-probe"), valid_descs)
+    # a deep copy taken before validation must validate like the original (every 4th case)
+    for k, c in enumerate(cases):
+        if k % 4 == 0 and not c["origin"].startswith("chain:"):
+            c.setdefault("deepcopy", True)
     n_rand = 800 if quick else 15000
     if ctx.escalate:
         n_rand *= 2
